@@ -21,7 +21,19 @@ package main
 // unless untouched, so it must not be delivered, and it must change nothing — C, B and D must
 // still arrive (dtlcp; on tlcp a forged record is fatal: nothing more is delivered and Read fails).
 //
-// case    : op=rx stack suite path field seed            (configuration, re-executable)
+// NEVER-PROTECTED records (fields plain<type>e<epoch>, tlcp: plain<type>): T is a record that was never
+// sealed at all — a plaintext body behind a header that claims application_data / alert / handshake /
+// change_cipher_spec, version 0x0101 and (dtlcp) epoch 0 or the current epoch, any sequence number —
+// put in front of a receiver that holds keys. The standard's receiver opens everything after the
+// peer's ChangeCipherSpec under the read state installed then (Spec.KeySchedule.receive), so none of
+// it may be delivered or acted upon. Such records, and the rewritten-epoch ones, are injected at every
+// point of a connection's life where the receiver holds keys: `at=hs` right after the handshake,
+// before any application record (for a dtlcp server that is its 2*MSL dwell period), `at=app` (the
+// default) after the first application record; `recv=server` (default: the client sends) or
+// `recv=client` (the server sends, the client's receive paths are under test); both stacks (tlcp: a
+// plaintext record in the stream after ChangeCipherSpec).
+//
+// case    : op=rx stack suite path field seed [at] [recv]  (configuration, re-executable)
 //           master smaster pre c2s s2c sentc sents t brec b c d   (captured)
 // observed: got=<payload>,<payload>,…|-  end=d|timeout|err
 
@@ -44,10 +56,86 @@ type rxCfg struct {
 	stack, path, field string
 	suite              uint16
 	seed               uint64
+	at                 string // "" / "app": after the first application record; "hs": right after the handshake
+	recv               string // "" / "server": the server's receive paths; "client": the client's
 }
 
 func rxDesc(c rxCfg) string {
-	return fmt.Sprintf("op=rx stack=%s suite=%d path=%s field=%s seed=%d", c.stack, c.suite, c.path, c.field, c.seed)
+	d := fmt.Sprintf("op=rx stack=%s suite=%d path=%s field=%s seed=%d", c.stack, c.suite, c.path, c.field, c.seed)
+	if c.at == "hs" {
+		d += " at=hs"
+	}
+	if c.recv == "client" {
+		d += " recv=client"
+	}
+	return d
+}
+
+// plainField: fields plain<type>[e<epoch>] — a record that was never protected
+func plainField(field string) (typ, epoch int, ok bool) {
+	if !strings.HasPrefix(field, "plain") {
+		return 0, 0, false
+	}
+	f := strings.TrimPrefix(field, "plain")
+	if i := strings.IndexByte(f, 'e'); i >= 0 {
+		if _, err := fmt.Sscanf(f[i+1:], "%d", &epoch); err != nil {
+			return 0, 0, false
+		}
+		f = f[:i]
+	}
+	if _, err := fmt.Sscanf(f, "%d", &typ); err != nil {
+		return 0, 0, false
+	}
+	return typ, epoch, true
+}
+
+// plainRecord builds a record that was never sealed: header (hl = 5 or 13 bytes; type, version
+// 0x0101, dtlcp: the epoch the field names and a sequence number drawn from {B's own, 0, the next
+// one, a random 48-bit value}) followed by a PLAINTEXT body of that type: application data ('T' +
+// random bytes; half of the time a whole number of cipher blocks, long enough to pass every length
+// check of a CBC / GCM opening), an alert (close_notify, a fatal one, a warning), a handshake
+// fragment (a HelloRequest-like stub or a copy of a genuine plaintext handshake record of the
+// sender's first flight: what a retransmission looks like), ChangeCipherSpec.
+func plainRecord(cfg rxCfg, hl int, brec []byte, firstFlight []byte) []byte {
+	typ, epoch, _ := plainField(cfg.field)
+	r := hx.NewRand(cfg.seed ^ 0x91a1)
+	var body []byte
+	switch typ {
+	case 21:
+		body = hx.Pick(r, [][]byte{{1, 0}, {2, 40}, {2, 20}, {1, 90}, {1, 0}})
+	case 22:
+		body = []byte{0, 0, 0, 0}
+		if hl == 13 {
+			body = []byte{0, 0, 0, 0, 0, 9, 0, 0, 0, 0, 0, 0}
+		}
+		if r.Bool() && len(firstFlight) > hl {
+			body = append([]byte(nil), firstFlight[hl:]...)
+		}
+	case 20:
+		body = []byte{1}
+	default:
+		n := 8 + r.Intn(40)
+		if r.Bool() {
+			n = 16*(4+r.Intn(4)) - 1
+		}
+		body = append([]byte{'T'}, r.Bytes(n)...)
+	}
+	t := make([]byte, hl, hl+len(body))
+	t[0], t[1], t[2] = byte(typ), 1, 1
+	if hl == 13 {
+		t[3], t[4] = byte(epoch>>8), byte(epoch)
+		copy(t[5:11], brec[5:11])
+		switch r.Intn(4) {
+		case 0:
+			copy(t[5:11], []byte{0, 0, 0, 0, 0, 0})
+		case 1:
+			t[10]++
+		case 2:
+			copy(t[5:11], r.Bytes(6))
+		}
+	}
+	t[hl-2], t[hl-1] = byte(len(body)>>8), byte(len(body))
+	return append(t, body...)
 }
 
 // tamper rewrites one header field of a copy of rec (hl = header length). prev is an older
@@ -141,8 +229,13 @@ func runRXTLCP(cfg rxCfg) (o rxOut, err string) {
 	var mu sync.Mutex
 	hold := false
 	var held []byte
+	fromClient := cfg.recv != "client"
 	c, sv, ce, se, r := pair.TLCP(ccfg, scfg, func(ce, se *pair.StreamEnd) {
-		ce.OnWrite = func(data []byte) [][]byte {
+		snd := ce
+		if !fromClient {
+			snd = se
+		}
+		snd.OnWrite = func(data []byte) [][]byte {
 			mu.Lock()
 			defer mu.Unlock()
 			if hold {
@@ -157,49 +250,99 @@ func runRXTLCP(cfg rxCfg) (o rxOut, err string) {
 	if !r.OK() {
 		return o, r.String()
 	}
+	// the sending connection and its transport end; the receiving connection
+	snd, rcv, sndEnd := c, sv, ce
+	if !fromClient {
+		snd, rcv, sndEnd = sv, c, se
+	}
 	a, b, cm, d := rxMsgs(cfg.seed)
 	o.b, o.c, o.d = b, cm, d
-	before := len(ce.SentBytes())
-	if _, e := c.Write(a); e != nil {
-		return o, "writeA"
+	before := len(sndEnd.SentBytes())
+	var sent []byte
+	arec := []byte(nil)
+	if cfg.at != "hs" {
+		if _, e := snd.Write(a); e != nil {
+			return o, "writeA"
+		}
+		if got, _ := collect(rcv.Read, rcv.SetReadDeadline, a); len(got) != 1 {
+			return o, "baseline"
+		}
+		arec = sndEnd.SentBytes()[before:]
+		sent = append(sent, a...)
 	}
-	if got, _ := collect(sv.Read, sv.SetReadDeadline, a); len(got) != 1 {
-		return o, "baseline"
-	}
-	arec := ce.SentBytes()[before:]
 	mu.Lock()
 	hold = true
 	mu.Unlock()
-	c.Write(b)
+	snd.Write(b)
 	mu.Lock()
 	o.brec = held
 	mu.Unlock()
 	if len(o.brec) < 5 {
 		return o, "hold"
 	}
+	if arec == nil { // nothing older to replay right after the handshake: the sender's Finished record
+		arec = lastRecordTLCP(sndEnd.SentBytes()[:before])
+	}
 	o.t = tamper(cfg.field, o.brec, arec, 5)
+	if _, _, ok := plainField(cfg.field); ok {
+		o.t = plainRecord(cfg, 5, o.brec, firstRecordTLCP(sndEnd.SentBytes()))
+	}
 	if leanSealed(cfg.field) {
 		ch, sh := tlcpHandshakeMsgs(ce.SentBytes()), tlcpHandshakeMsgs(se.SentBytes())
 		if len(ch) == 0 || len(sh) == 0 || len(ch[0]) < 38 || len(sh[0]) < 38 {
 			return o, "hellos"
 		}
-		cmac, _, ckey, _, civ, _ := tlcp.VerifKeys(cfg.suite, cc.master, ch[0][6:38], sh[0][6:38])
-		seq := protectedCount(ce.SentBytes()) - 1 // B is the last one; T takes its place
+		cmac, smac, ckey, skey, civ, siv := tlcp.VerifKeys(cfg.suite, cc.master, ch[0][6:38], sh[0][6:38])
+		if !fromClient {
+			cmac, ckey, civ = smac, skey, siv
+		}
+		seq := protectedCount(sndEnd.SentBytes()) - 1 // B is the last one; T takes its place
 		o.t, o.padlen = sealForeign(cfg, "tlcp", ckey, civ, cmac, 0, uint64(seq))
 		if o.t == nil {
 			return o, "sealer"
 		}
 	}
-	ce.Inject(o.t)
-	c.Write(cm)
-	c.Write(d)
-	o.got, o.end = collect(sv.Read, sv.SetReadDeadline, d)
+	sndEnd.Inject(o.t)
+	snd.Write(cm)
+	snd.Write(d)
+	o.got, o.end = collect(rcv.Read, rcv.SetReadDeadline, d)
 	c.Close()
 	sv.Close()
 	o.cp.c2s, o.cp.s2c = ce.SentBytes(), se.SentBytes()
 	o.cp.master, o.cp.smast = cc.master, sc.master
-	o.cp.sentc = append(append(append(append([]byte(nil), a...), b...), cm...), d...)
+	sent = append(append(append(sent, b...), cm...), d...)
+	if fromClient {
+		o.cp.sentc = sent
+	} else {
+		o.cp.sents = sent
+	}
 	return o, ""
+}
+
+// firstRecordTLCP / lastRecordTLCP: the first (a plaintext handshake record) and the last complete
+// record of a TLCP byte stream
+func firstRecordTLCP(wire []byte) []byte {
+	if len(wire) < 5 {
+		return nil
+	}
+	l := int(wire[3])<<8 | int(wire[4])
+	if 5+l > len(wire) {
+		return nil
+	}
+	return wire[:5+l]
+}
+
+func lastRecordTLCP(wire []byte) []byte {
+	var last []byte
+	for i := 0; i+5 <= len(wire); {
+		l := int(wire[i+3])<<8 | int(wire[i+4])
+		if i+5+l > len(wire) {
+			break
+		}
+		last = wire[i : i+5+l]
+		i += 5 + l
+	}
+	return last
 }
 
 func runRXDTLCP(cfg rxCfg) (o rxOut, err string) {
@@ -212,8 +355,13 @@ func runRXDTLCP(cfg rxCfg) (o rxOut, err string) {
 	var mu sync.Mutex
 	hold := false
 	var held []byte
+	fromClient := cfg.recv != "client"
 	c, sv, ce, se, r := pair.DTLCP(ccfg, scfg, func(ce, se *pair.PacketEnd) {
-		ce.OnSend = func(idx int, data []byte) [][]byte {
+		snd := ce
+		if !fromClient {
+			snd = se
+		}
+		snd.OnSend = func(idx int, data []byte) [][]byte {
 			mu.Lock()
 			defer mu.Unlock()
 			if hold {
@@ -228,24 +376,32 @@ func runRXDTLCP(cfg rxCfg) (o rxOut, err string) {
 	if !r.OK() {
 		return o, r.String()
 	}
-	read := sv.Read
+	snd, rcv, sndEnd, rcvEnd := c, sv, ce, se
+	if !fromClient {
+		snd, rcv, sndEnd, rcvEnd = sv, c, se, ce
+	}
+	read := rcv.Read
 	if cfg.path == "readfrom" {
-		read = func(p []byte) (int, error) { n, _, e := sv.ReadFrom(p); return n, e }
+		read = func(p []byte) (int, error) { n, _, e := rcv.ReadFrom(p); return n, e }
 	}
 	a, b, cm, d := rxMsgs(cfg.seed)
 	o.b, o.c, o.d = b, cm, d
-	if _, e := c.Write(a); e != nil {
-		return o, "writeA"
+	var sentApp []byte
+	if cfg.at != "hs" {
+		if _, e := snd.Write(a); e != nil {
+			return o, "writeA"
+		}
+		if got, _ := collect(read, rcv.SetReadDeadline, a); len(got) != 1 {
+			return o, "baseline"
+		}
+		sentApp = append(sentApp, a...)
 	}
-	if got, _ := collect(read, sv.SetReadDeadline, a); len(got) != 1 {
-		return o, "baseline"
-	}
-	sent := ce.SentCopy()
-	arec := sent[len(sent)-1]
+	sent := sndEnd.SentCopy()
+	arec := lastRecordDTLCP(sent[len(sent)-1]) // the newest genuine record delivered so far (A, or the Finished)
 	mu.Lock()
 	hold = true
 	mu.Unlock()
-	c.Write(b)
+	snd.Write(b)
 	mu.Lock()
 	o.brec = held
 	mu.Unlock()
@@ -253,6 +409,9 @@ func runRXDTLCP(cfg rxCfg) (o rxOut, err string) {
 		return o, "hold"
 	}
 	o.t = tamper(cfg.field, o.brec, arec, 13)
+	if _, _, ok := plainField(cfg.field); ok {
+		o.t = plainRecord(cfg, 13, o.brec, lastRecordDTLCP(sent[0]))
+	}
 	if leanSealed(cfg.field) {
 		var cwire, swire []byte
 		for _, x := range ce.SentCopy() {
@@ -265,7 +424,10 @@ func runRXDTLCP(cfg rxCfg) (o rxOut, err string) {
 		if len(ch) < 34 || len(sh) < 34 {
 			return o, "hellos"
 		}
-		cmac, _, ckey, _, civ, _ := dtlcp.VerifKeys(cfg.suite, cc.master, ch[2:34], sh[2:34])
+		cmac, smac, ckey, skey, civ, siv := dtlcp.VerifKeys(cfg.suite, cc.master, ch[2:34], sh[2:34])
+		if !fromClient {
+			cmac, ckey, civ = smac, skey, siv
+		}
 		var seq uint64
 		for _, b := range o.brec[5:11] {
 			seq = seq<<8 | uint64(b)
@@ -275,11 +437,11 @@ func runRXDTLCP(cfg rxCfg) (o rxOut, err string) {
 			return o, "sealer"
 		}
 	}
-	se.Deliver(o.t, ce.LocalAddr())
-	c.Write(cm)
-	se.Deliver(o.brec, ce.LocalAddr()) // the genuine B arrives late (reordering is legal on datagrams)
-	c.Write(d)
-	o.got, o.end = collect(read, sv.SetReadDeadline, d)
+	rcvEnd.Deliver(o.t, sndEnd.LocalAddr())
+	snd.Write(cm)
+	rcvEnd.Deliver(o.brec, sndEnd.LocalAddr()) // the genuine B arrives late (reordering is legal on datagrams)
+	snd.Write(d)
+	o.got, o.end = collect(read, rcv.SetReadDeadline, d)
 	c.Close()
 	sv.Close()
 	for _, x := range ce.SentCopy() {
@@ -289,8 +451,27 @@ func runRXDTLCP(cfg rxCfg) (o rxOut, err string) {
 		o.cp.s2c = append(o.cp.s2c, x...)
 	}
 	o.cp.master, o.cp.smast = cc.master, sc.master
-	o.cp.sentc = append(append(append(append([]byte(nil), a...), b...), cm...), d...)
+	sentApp = append(append(append(sentApp, b...), cm...), d...)
+	if fromClient {
+		o.cp.sentc = sentApp
+	} else {
+		o.cp.sents = sentApp
+	}
 	return o, ""
+}
+
+// lastRecordDTLCP: the last complete record of a datagram
+func lastRecordDTLCP(dg []byte) []byte {
+	var last []byte
+	for i := 0; i+13 <= len(dg); {
+		n := int(dg[i+11])<<8 | int(dg[i+12])
+		if i+13+n > len(dg) {
+			break
+		}
+		last = dg[i : i+13+n]
+		i += 13 + n
+	}
+	return last
 }
 
 func executeRXFull(desc string) (captured, obs string) {
@@ -302,6 +483,8 @@ func executeRXFull(desc string) (captured, obs string) {
 	cfg.field, _ = hx.KV(desc, "field")
 	cfg.suite = uint16(kvU64(desc, "suite"))
 	cfg.seed = kvU64(desc, "seed")
+	cfg.at, _ = hx.KV(desc, "at")
+	cfg.recv, _ = hx.KV(desc, "recv")
 	var o rxOut
 	var e string
 	if p := hx.Guard(func() {
@@ -316,8 +499,8 @@ func executeRXFull(desc string) (captured, obs string) {
 	if e != "" {
 		return "", "setup=" + strings.ReplaceAll(e, " ", "_")
 	}
-	captured = fmt.Sprintf("master=%s smaster=%s pre=- c2s=%s s2c=%s sentc=%s sents=- t=%s brec=%s b=%s c=%s d=%s padlen=%d",
-		hx.Hex(o.cp.master), hx.Hex(o.cp.smast), hx.Hex(o.cp.c2s), hx.Hex(o.cp.s2c), hx.Hex(o.cp.sentc),
+	captured = fmt.Sprintf("master=%s smaster=%s pre=- c2s=%s s2c=%s sentc=%s sents=%s t=%s brec=%s b=%s c=%s d=%s padlen=%d",
+		hx.Hex(o.cp.master), hx.Hex(o.cp.smast), hx.Hex(o.cp.c2s), hx.Hex(o.cp.s2c), hx.Hex(o.cp.sentc), hx.Hex(o.cp.sents),
 		hx.Hex(o.t), hx.Hex(o.brec), hx.Hex(o.b), hx.Hex(o.c), hx.Hex(o.d), o.padlen)
 	var gs []string
 	for _, g := range o.got {
@@ -549,6 +732,50 @@ func rxCases(o hx.Opts, emit func(string)) {
 				emit(rxDesc(rxCfg{stack: "dtlcp", suite: 0xe053, path: path, field: f, seed: r.U64() >> 1}))
 			}
 			emit(rxDesc(rxCfg{stack: "tlcp", suite: 0xe053, path: "read", field: f, seed: r.U64() >> 1}))
+		}
+		// records that were NEVER PROTECTED (plaintext body; application data, alert, handshake,
+		// ChangeCipherSpec; dtlcp: epoch 0 and the current epoch), and copies of genuine records with
+		// the epoch rewritten / replayed, at every point where the receiver holds keys: right after
+		// the handshake (at=hs; the dtlcp server is in its dwell period then) and after the first
+		// application record, in front of the server's and of the client's receive paths
+		rr := hx.NewRand(o.Seed + 991 + uint64(rep))
+		for _, id := range []uint16{0xe013, 0xe053} {
+			for _, recv := range []string{"server", "client"} {
+				for _, at := range []string{"hs", "app"} {
+					for _, path := range []string{"read", "readfrom"} {
+						fields := []string{"plain23e0", "plain21e0", "plain23e1", "plain21e1", "plain22e0", "plain22e1", "plain20e0", "plain20e1"}
+						if at == "hs" || recv == "client" { // (at=app recv=server: the cases above)
+							fields = append(fields, "epoch0", "replayepoch2", "none")
+							if o.Tier == "thorough" {
+								fields = append(fields, "epoch2", "type", "type21", "version", "seq", "length")
+							}
+						}
+						for _, f := range fields {
+							emit(rxDesc(rxCfg{stack: "dtlcp", suite: id, path: path, field: f, seed: rr.U64() >> 1, at: at, recv: recv}))
+						}
+					}
+					fields := []string{"plain23", "plain21", "plain22", "plain20"}
+					if at == "hs" || recv == "client" {
+						fields = append(fields, "type", "replay", "none")
+						if o.Tier == "thorough" {
+							fields = append(fields, "type21", "version", "length")
+						}
+					}
+					for _, f := range fields {
+						emit(rxDesc(rxCfg{stack: "tlcp", suite: id, path: "read", field: f, seed: rr.U64() >> 1, at: at, recv: recv}))
+					}
+				}
+			}
+		}
+		// Lean-sealed records in front of the CLIENT's receive paths and right after the handshake
+		for _, c := range []struct {
+			id uint16
+			f  string
+		}{{0xe013, "padlong"}, {0xe013, "padbadfar"}, {0xe053, "noncectr"}, {0xe053, "noncezero"}} {
+			at := hx.Pick(rr, []string{"hs", "app"})
+			emit(rxDesc(rxCfg{stack: "dtlcp", suite: c.id, path: hx.Pick(rr, []string{"read", "readfrom"}), field: c.f, seed: rr.U64() >> 1, at: at, recv: "client"}))
+			emit(rxDesc(rxCfg{stack: "tlcp", suite: c.id, path: "read", field: c.f, seed: rr.U64() >> 1, at: at, recv: "client"}))
+			emit(rxDesc(rxCfg{stack: "dtlcp", suite: c.id, path: hx.Pick(rr, []string{"read", "readfrom"}), field: c.f, seed: rr.U64() >> 1, at: "hs"}))
 		}
 	}
 }
